@@ -20,8 +20,20 @@ REPO = os.environ.get("IVP_REPO", "/repo")
 ALL = [c["property_id"] for c in json.load(open(os.path.join(VERIF, "MANIFEST.json")))["checks"]]
 
 
+import queue
+SLOTS = queue.Queue()
+
+
 def run_patch(args):
-    kind, name, patch, props, worker = args
+    kind, name, patch, props, _ = args
+    worker = SLOTS.get()
+    try:
+        return run_patch_in(kind, name, patch, props, worker)
+    finally:
+        SLOTS.put(worker)
+
+
+def run_patch_in(kind, name, patch, props, worker):
     scratch = tempfile.mkdtemp(prefix="ivp-corpus-")
     try:
         rp = os.path.join(scratch, "repo")
@@ -48,6 +60,10 @@ def run_patch(args):
             rr = subprocess.run(["python3", os.path.join(VERIF, "rules", "run.py"), p, "quick"], cwd=VERIF, env=env, capture_output=True, text=True)
             keys = [l.split("key=")[1].strip() for l in rr.stdout.splitlines() if l.startswith("  rule=")]
             res[p] = dict(rc=rr.returncode, keys=keys[:3])
+            if os.environ.get("CORPUS_VERBOSE") and rr.returncode != 0:
+                res[p]["lines"] = [l[:700] for l in rr.stdout.splitlines() if l.startswith(("  rule=", "  at ", "INCONCLUSIVE"))][:12]
+            if rr.returncode not in (0, 1, 2):
+                res[p]["error"] = (rr.stderr or rr.stdout)[-400:]
         return dict(kind=kind, name=name, status="ran", results=res)
     finally:
         shutil.rmtree(scratch, ignore_errors=True)
@@ -59,6 +75,7 @@ def main():
     ap.add_argument("--only", default="")
     ap.add_argument("--jobs", type=int, default=8)
     ap.add_argument("--kinds", default="seeded,benign")
+    ap.add_argument("--own-seeds", action="store_true", help="only seeds whose property is in --props")
     a = ap.parse_args()
     props = [p for p in a.props.split(",") if p] or ALL
     jobs = []
@@ -69,6 +86,8 @@ def main():
                 continue
             meta = json.load(open(os.path.join(d, "meta.json")))
             want = meta["property"]
+            if a.own_seeds and want not in props:
+                continue
             # a mutant is run against its own property's check (and against the requested ones)
             ps = sorted(set([want] + (props if a.props else [])) & set(ALL))
             jobs.append(("seeded", name, os.path.join(d, "patch.diff"), ps, want))
@@ -80,11 +99,12 @@ def main():
             jobs.append(("benign", name, pth, props, None))
     out = []
     ok = True
+    for k in range(a.jobs):
+        SLOTS.put(k)
     with ThreadPoolExecutor(max_workers=a.jobs) as ex:
         futs = []
         for j, (kind, name, patch, ps, want) in enumerate(jobs):
             futs.append((kind, name, want, ex.submit(run_patch, (kind, name, patch, ps, j % a.jobs))))
-        # one worker id per concurrent slot is only approximate; cargo locks the target dir if two jobs share it
         for kind, name, want, fu in futs:
             r = fu.result()
             if r["status"] == "skipped":
@@ -101,11 +121,25 @@ def main():
                 inc = [p for p, v in res.items() if v["rc"] == 2]
                 good = not bad
                 print("%-8s %-40s %s%s" % (kind, name, "SILENT" if good else "FALSE-ALARM in %s" % bad, (" (inconclusive: %s)" % inc) if inc else ""))
+            for p_, v_ in res.items():
+                for l in v_.get("lines", []):
+                    print("      [%s] %s" % (p_, l))
             r["ok"] = good
             ok = ok and good
             out.append(r)
     summary = dict(patches=len(out), ok=sum(1 for r in out if r.get("ok")), skipped=sum(1 for r in out if r["status"] == "skipped"),
                    failed=[r["name"] for r in out if r["status"] == "ran" and not r.get("ok")])
+    # remember the per-patch verdicts (merged over partial runs) for tools/gen_tables.py
+    if not os.environ.get("IVP_THOROUGH_CHILD"):
+        lp = os.path.join(VERIF, "selftest", "last_corpus.json")
+        try:
+            last = json.load(open(lp))
+        except Exception:
+            last = {}
+        for r in out:
+            if r["status"] == "ran":
+                last.setdefault(r["name"], {}).update({p: dict(rc=v["rc"], keys=v["keys"][:1]) for p, v in r["results"].items()})
+        json.dump(last, open(lp, "w"), indent=0, sort_keys=True)
     print("CORPUS " + json.dumps(summary))
     return 0 if ok else 1
 
